@@ -217,7 +217,13 @@ impl InputState {
                 .skip(5)
                 .map(|c| c.len_utf8())
                 .sum();
+            #[cfg(not(feature = "verif-hooks"))]
             let comps = file_comp.complete_path(s, pos);
+            #[cfg(feature = "verif-hooks")]
+            let comps = match verif::take_completions() {
+                Some(list) => verif::scripted_completions(s, pos, list),
+                None => file_comp.complete_path(s, pos),
+            };
             match comps {
                 Ok((_, comps)) => {
                     let start: String = "load ".into();
@@ -253,6 +259,61 @@ impl InputState {
             // Select first completions
             self.input = comps[idx].clone();
             self.input_index = self.input.len();
+        }
+    }
+}
+
+/// Verification hooks: read access to the editor state and a scripted replacement for the
+/// file system lookups of the path completer.
+#[cfg(feature = "verif-hooks")]
+pub mod verif {
+    use super::InputState;
+    use rustyline::completion::Pair;
+    use std::cell::RefCell;
+
+    thread_local! {
+        static COMPLETIONS: RefCell<Option<Vec<String>>> = RefCell::new(None);
+    }
+    /// The next path completion returns these replacements instead of looking at the file system.
+    pub fn set_completions(list: Option<Vec<String>>) {
+        COMPLETIONS.with(|c| *c.borrow_mut() = list);
+    }
+    pub fn take_completions() -> Option<Vec<String>> {
+        COMPLETIONS.with(|c| c.borrow_mut().take())
+    }
+    /// Same contract as `FilenameCompleter::complete_path`, which slices the line at `pos`.
+    pub fn scripted_completions(
+        line: &str,
+        pos: usize,
+        list: Vec<String>,
+    ) -> rustyline::Result<(usize, Vec<Pair>)> {
+        let _ = &line[..pos];
+        let pairs = list
+            .into_iter()
+            .map(|r| Pair {
+                display: r.clone(),
+                replacement: r,
+            })
+            .collect();
+        Ok((0, pairs))
+    }
+    /// (input, cursor, history, history index, completions and index)
+    pub type EditorState = (
+        Vec<char>,
+        usize,
+        Vec<String>,
+        Option<usize>,
+        Option<(Vec<Vec<char>>, usize)>,
+    );
+    impl InputState {
+        pub fn verif_state(&self) -> EditorState {
+            (
+                self.input.clone(),
+                self.input_index,
+                self.history.clone(),
+                self.history_index,
+                self.curr_completions.clone(),
+            )
         }
     }
 }
